@@ -11,7 +11,7 @@ L = env.lib()
 ID = "C06"
 LEVEL = "exploration"
 RULE = ("Schedules are inputs: (a) Hypothesis-generated (2-3 concurrent operations from {shell/exec_out with 0..4 chunks, streaming_shell, stat, list, small pull, push of 0..9000 bytes}, scheduler choice tape or seeded whole-run pseudo-random schedule with switch probability 0.1-0.8, "
-        "device packet-order tape, eager/strict CLSE, transport flavour) under the cooperative THREAD scheduler (yield points: lock acquire/release, every transport call; also, in a third of the thread cases, every line of "
+        "device packet-order tape, eager/strict CLSE, CLSE(0,id) replies, legacy packets addressed with a zero host id, transport flavour) under the cooperative THREAD scheduler (yield points: lock acquire/release, every transport call; also, in a third of the thread cases, every line of "
         "_AdbIOManager.read/send and the packet store, or every line of the filesync helpers) and the deterministic asyncio TASK scheduler; (b) complete preemption-bounded enumeration (<=1 preemption quick, <=2 thorough) over all yield points "
         "of 10 fixed workloads (two of them with a concurrent close(), judged for deadlock/wrong data only) x 2 device tapes, threads and tasks; (c) two streaming_shell generators advanced alternately in one thread. Oracle: each operation's result equals the model's value (what it "
         "returns alone); no deadlock (no runnable worker) and no step-budget exhaustion. A run whose only deviations are timeouts and in which the put-observer saw a live stream's CLSE discarded is counted "
@@ -47,7 +47,8 @@ def workloads(draw, api=None):
         ops.insert(draw(st.integers(0, len(ops))), {"op": "close"})
     return {"api": api or draw(st.sampled_from(["sync", "async"])),
             "device": {"services": services, "fs": FS, "dirs": DIRS, "eager_clse": draw(st.lists(st.booleans(), max_size=3)), "recv_sizes": [100],
-                       "rids": draw(sc.rid_list(4)), "zero_clse_reply": draw(st.booleans()), "maxdata": draw(st.sampled_from([4096, 4096, 65536, 1048576]))},
+                       "rids": draw(sc.rid_list(4)), "zero_clse_reply": draw(st.booleans()), "maxdata": draw(st.sampled_from([4096, 4096, 65536, 1048576])),
+                       "zero_arg1": draw(st.one_of(st.just([]), st.just([]), st.lists(st.booleans(), min_size=1, max_size=6)))},
             "dev_tape": draw(st.lists(st.integers(0, 5), max_size=40)),
             "transport": {"flavour": draw(sc.flavour()), "log_calls": False},
             "connect": {}, "ops": ops,
